@@ -136,7 +136,7 @@ def run_kani_units(units, prop, tier, scratch, jobs, only=None):
                 detail['log_tail'] = '\n'.join(r['log'].strip().split('\n')[-25:])
                 reason = {'timeout': 'timeout after %ds' % h.timeout, 'unwind': 'bound: unwinding assertion failed',
                           'compile-error': 'front-end: compile error', 'no-harness': 'anchor-lost: harness not found',
-                          'tool-error': 'tool-error', 'unsupported': 'unsupported: a construct Kani cannot model is reachable'}.get(st, st)
+                          'tool-error': 'tool-error', 'oom': 'resource: CBMC ran out of memory / did not finish', 'unsupported': 'unsupported: a construct Kani cannot model is reachable'}.get(st, st)
                 outcomes.append(Outcome(u.name, h.oblig, 'undecided', reason=reason, **base))
     return outcomes, info, preps
 
